@@ -110,7 +110,7 @@ def itemOut : Option (List Nat) → String
   | some u => "=" ++ unitsOut u
 
 def resOut : Res → String
-  | .null => "null" | .undef => "undef"
+  | .null => "null" | .undef => "undef" | .thrown => "throw"
   | .bool b => if b then "true" else "false"
   | .num n => "n" ++ toString n
   | .str u => "s" ++ unitsOut u
@@ -123,6 +123,8 @@ def histOut (h : List (Res × LI)) : String :=
 def step? (t : String) : Option Step :=
   if t = "e" then some .exec else if t = "t" then some .test else if t = "m" then some .mtch
   else if t = "s" then some .search else if t = "rF" then some .replaceF else if t = "rT" then some .replaceT
+  else if t = "rL" then some .replaceL else if t = "rE" then some .replaceE else if t = "rX" then some .replaceX
+  else if t.startsWith "rW:" then (li? (dropS t 3)).map .replaceW
   else if t.startsWith "rS:" then (hex? (dropS t 3)).map .replaceS
   else if t.startsWith "rK:" then (hex? (dropS t 3)).map .replaceK
   else if t = "p:u" then some (.split none)
@@ -183,8 +185,8 @@ def devX (pat flags subj : List Nat) (steps : List Step) : List String :=
     let ic := flags.contains 105
     let ml := flags.contains 109
     let has (p : Step → Bool) := steps.any p
-    let execLike := has fun | .exec | .test => true | .mtch => !g | _ => false
-    let allLike := has fun | .mtch => g | .replaceS _ | .replaceF | .replaceK _ | .replaceT => g | _ => false
+    let execLike := has fun | .exec | .test | .replaceE => true | .mtch => !g | _ => false
+    let allLike := has fun | .mtch => g | .replaceS _ | .replaceF | .replaceK _ | .replaceT | .replaceL | .replaceW _ | .replaceE | .replaceX => g | _ => false
     let anyMatch := has fun | .setLI _ => false | _ => true
     let nl := nullable r
     base ++
@@ -268,6 +270,32 @@ def handle (ws : List String) : String :=
         | .opaque => "throw:SyntaxError"
       mo ++ " " ++ sp ++ " " ++ devOut (devX pat fb sb steps)
     | _, _, _, _ => "bad-op"
+  -- a RegExp whose lastIndex cannot be written (mode nw: defineProperty writable:false; fr: Object.freeze), then
+  -- S.replace(re, counting function returning "-").  Global: the search of §15.5.4.10 begins with
+  -- [[Put]]("lastIndex", 0, true) → TypeError BEFORE any call of the function (builtin_string.go:287-290 does the
+  -- put right after the search, before the loop).  Not global: the object is not written at all.
+  | ["xf", _mode, p, f, s] => match hex? p, hex? f, hex? s with
+    | some pb, some fb, some sb =>
+      let pat := Str.decodeRunes pb
+      let mo := match buildModel pat fb with
+        | .error c => "throw:" ++ c
+        | .opaque => "unmodelled"
+        | .ok g d r =>
+          if g then "throw:TypeError|calls:0|li:i0" else
+          let e := goEngine d r
+          resOut (Model.builtinStringReplace e { global := g, lastIndex := .int 0 } sb (.const [45])).2 ++
+            "|calls:" ++ toString (Model.findAll e sb (some 1)).length ++ "|li:i0"
+      let sp := match buildSpec pat fb with
+        | .ok g d r =>
+          if g then "throw:TypeError|calls:0|li:i0" else
+          let e := es5Engine d r
+          let u := Str.unitsOfBytes sb
+          resOut (Spec.stringReplace e { global := g, lastIndex := .int 0 } u (.const [45])).2 ++
+            "|calls:" ++ (match Spec.searchFrom e u 0 with | some _ => "1" | none => "0") ++ "|li:i0"
+        | .error c => "throw:" ++ c
+        | .opaque => "throw:SyntaxError"
+      mo ++ " " ++ sp ++ " " ++ devOut (devX pat fb sb [.replaceK [45]])
+    | _, _, _ => "bad-op"
   -- the receiver dimension: the String methods are called through .call on a receiver that is not a primitive
   -- string (String object, number, boolean, object with a counting toString); <recv> = p:<hex> S:<hex> n:<hex> b:<hex>
   -- o:<hex>, the hex being the string the receiver converts to.  §15.5.4.10-14 step 2 / §15.10.6.2 step 2:
